@@ -1,12 +1,120 @@
+/-
+C10 — property theorems.  All statements are for every integer type `t = (bits, signed)`,
+every base `2..36`, every value of the type, every buffer / input string.
+-/
 import TetlProofs.C10.Lemmas
 namespace Tetl.C10.Props
 open Tetl Tetl.C10
 
-/-- placeholder while the pipeline is brought up -/
-theorem wr_length (buf : List Nat) (i x : Nat) (b : List Nat) (h : wr buf i x = .ok b) : b.length = buf.length := by
-  unfold wr at h
-  split at h
-  · cases h; simp
-  · cases h
+/-! ## formatting -/
+
+/-- `from_integer` (with or without terminator) never writes outside `[str, str+length)`, never
+    overflows an intermediate, and produces exactly: overflow when sign + digits (+ NUL) do not fit,
+    otherwise sign + digits most significant first (+ NUL) followed by the untouched rest of the
+    buffer, `end` = number of characters without the NUL. -/
+theorem fromInteger_eq (t : IntTy) (term : Bool) (v : Int) (buf : List Nat) (b : Nat)
+    (hb : 2 ≤ b ∧ b ≤ 36) (hv : t.inRange v = true) :
+    fromInteger t term v buf b = .ok (Spec.fromInteger term v b buf) := by
+  unfold fromInteger
+  have hbase : (((b : Int) < 2) || decide ((b : Int) > 36)) = false := by
+    simp only [Bool.or_eq_false_iff, decide_eq_false_iff_not]; omega
+  simp only [hbase, hv, Bool.false_eq_true, if_false, Bool.not_true]
+  by_cases h0 : v = 0
+  · subst h0
+    simp only [Spec.fromInteger, Spec.render, beq_self_eq_true, if_true]
+    cases term <;> cases buf with
+    | nil => simp
+    | cons r rest =>
+      cases rest with
+      | nil => simp [wr]
+      | cons r2 rest2 => simp [wr]
+  · have hne : (v == 0) = false := by simp [h0]
+    simp only [hne, Bool.false_eq_true, if_false]
+    rw [spec_fromInteger_nonzero term v b buf h0]
+    by_cases hneg : v < 0
+    · -- negative: the type is signed, a minus sign is written first
+      have hs : t.signed = true := by
+        cases hsg : t.signed with
+        | true => rfl
+        | false => have := IntTy.nonneg_of_unsigned hsg hv; omega
+      have hv' : v = sgn true v.natAbs := by simp only [sgn, if_true]; omega
+      have hn : v.natAbs ≠ 0 := by omega
+      have hcond : (t.signed && decide (v < 0)) = true := by simp [hs, hneg]
+      simp only [hcond, if_true]
+      have hk := digits_ne_nil hb.1 hn
+      by_cases hsmall : buf.length < 0 + 1 + (if term then 1 else 0)
+      · have hfit2 : ¬ (if v < 0 then 1 else 0) + (Spec.digits b v.natAbs).length + (if term then 1 else 0)
+            ≤ buf.length := by simp only [hneg, if_true]; omega
+        rw [if_pos hsmall, if_neg hfit2]
+      · rw [if_neg hsmall]
+        cases buf with
+        | nil => simp only [List.length_nil] at hsmall; omega
+        | cons r rest =>
+          have hw : wr (r :: rest) 0 45 = .ok ([45] ++ rest) := by simp [wr]
+          rw [hw]
+          simp only [ok_bind]
+          have hfb := fiBody_spec t b hb.1 term true v.natAbs hn [45] rest rfl (hv' ▸ hv)
+          rw [← hv'] at hfb
+          simp only [List.length_cons, List.length_nil, Nat.zero_add] at hfb
+          rw [hfb, map_digitChar]
+          by_cases hfit : (Spec.digits b v.natAbs).length + (if term then 1 else 0) ≤ rest.length
+          · have hfit2 : (if v < 0 then 1 else 0) + (Spec.digits b v.natAbs).length + (if term then 1 else 0)
+                ≤ (r :: rest).length := by simp only [hneg, if_true, List.length_cons]; omega
+            rw [if_pos hfit, if_pos hfit2]
+            simp only [hneg, if_true]
+            have e : 1 + (Spec.digits b v.natAbs).length + (if term then 1 else 0)
+                = ((Spec.digits b v.natAbs).length + (if term then 1 else 0)) + 1 := by omega
+            rw [e, List.drop_succ_cons]
+          · have hfit2 : ¬ (if v < 0 then 1 else 0) + (Spec.digits b v.natAbs).length + (if term then 1 else 0)
+                ≤ (r :: rest).length := by simp only [hneg, if_true, List.length_cons]; omega
+            rw [if_neg hfit, if_neg hfit2]
+    · -- positive
+      have hpos : 0 < v := by omega
+      have hv' : v = sgn false v.natAbs := by simp only [sgn, Bool.false_eq_true, if_false]; omega
+      have hn : v.natAbs ≠ 0 := by omega
+      have hcond : (t.signed && decide (v < 0)) = false := by simp [hneg]
+      simp only [hcond, Bool.false_eq_true, if_false]
+      simp only [hneg, if_false]
+      have hfb := fiBody_spec t b hb.1 term false v.natAbs hn [] buf rfl (hv' ▸ hv)
+      rw [← hv'] at hfb
+      simp only [List.nil_append, List.length_nil, Nat.zero_add] at hfb
+      rw [hfb, map_digitChar]
+      simp only [List.nil_append, Nat.zero_add]
+
+/-- non-vacuity of `fromInteger_eq`: `INT8_MIN` in base 2 with terminator into an exact-fit buffer -/
+example : fromInteger ⟨8, true⟩ true (-128) (List.replicate 10 170) 2
+    = .ok (.done [45, 49, 48, 48, 48, 48, 48, 48, 48, 0] 9) := by rfl
+
+/-- `to_chars`: `{first + n, {}}` with exactly the `n` characters of the value when they fit into
+    `[first, last)` — an exact fit included — and `{last, value_too_large}` otherwise; nothing outside
+    `[first, last)` is written (every write is checked) and the bytes after `ptr` keep their value. -/
+theorem toChars_eq (t : IntTy) (v : Int) (buf : List Nat) (b : Nat)
+    (hb : 2 ≤ b ∧ b ≤ 36) (hv : t.inRange v = true) :
+    toChars t v buf b = .ok (Spec.toChars v b buf) := by
+  unfold toChars
+  rw [fromInteger_eq t false v buf b hb hv]
+  simp only [ok_bind, Spec.fromInteger, Spec.toChars, Bool.false_eq_true, if_false]
+  by_cases hfit : (Spec.render v b).length ≤ buf.length
+  · rw [if_pos hfit, if_pos hfit]
+  · rw [if_neg hfit, if_neg hfit]
+
+example : toChars ⟨32, true⟩ 123 [170, 170, 170] 10 = .ok (.ok [49, 50, 51] 3) := by rfl
+
+/-- `to_string<Capacity>`: the decimal text, whenever `Capacity` exceeds its length (the documented
+    precondition: digits and terminator fit) -/
+theorem toStr_eq (t : IntTy) (cap : Nat) (v : Int) (hv : t.inRange v = true)
+    (hcap : (Spec.render v 10).length < cap) :
+    toStr t cap v = .ok (Spec.render v 10) := by
+  unfold toStr
+  have h := fromInteger_eq t true v (List.replicate cap 0) 10 (by omega) hv
+  have e : ((10 : Nat) : Int) = (10 : Int) := rfl
+  rw [e] at h
+  rw [h]
+  simp only [ok_bind, Spec.fromInteger, if_true]
+  have : (Spec.render v 10 ++ [0]).length ≤ (List.replicate cap 0).length := by simp; omega
+  rw [if_pos this]
+  simp
+
+example : toStr ⟨32, true⟩ 12 (-2147483648) = .ok [45, 50, 49, 52, 55, 52, 56, 51, 54, 52, 56] := by rfl
 
 end Tetl.C10.Props
